@@ -13,8 +13,8 @@ LEVEL = 'model_checking'
 STATES_FROM_COUNTERS = ('schedules', 'scheduling_points')     # complete schedules explored / scheduling decisions taken
 RULE = ('(a) every sequence of <= 3 (quick) / 4 (thorough) runs on one thread over 9 kinds {ok, root raises, root returns a truthy / '
         'falsy value, activities blocked for ever, till, nested run that succeeds / fails / leaks}, each with its own start time; '
-        '(b) every interleaving of 2 (quick: preemption bound 3; thorough: unbounded) and 3 (thorough: preemption bound 2) OS threads '
-        'that each run a small simulation, under a controlled scheduler with scheduling points after every activation and around the '
+        '(b) every interleaving of 2 (preemption bound 3 quick / 5 thorough) and 3 (preemption bound 1 quick / 2 thorough) OS threads '
+        'that each run a small simulation (thorough: 2 threads with <= 5 preemptions), under a controlled scheduler with scheduling points after every activation and around the '
         'assignment of the thread\'s current loop. Oracle: time.now raises outside of run() in every thread; roots start at `start` '
         'in argument order; the first escaping exception is re-raised by identity; a returned value gives ActivityLeak; run returns '
         'only when all unfinished activities are blocked for ever; an outer simulation is unchanged by a nested run; every thread\'s '
@@ -359,7 +359,7 @@ def explore_threads(names, bound):
 # ---- driver interface ----------------------------------------------------------------------------------------
 def BOUNDS(tier):
     return {'quick': {'history_len': 3, 'threads': '2 with <= 3 preemptions'},
-            'thorough': {'history_len': 4, 'threads': '2 unbounded, 3 with <= 2 preemptions'}}[tier]
+            'thorough': {'history_len': 4, 'threads': '2 with <= 5 preemptions, 3 with <= 2 preemptions'}}[tier]
 
 
 def cases(tier):
@@ -372,7 +372,7 @@ def cases(tier):
             out.append({'kind': 'history', 'runs': list(seq)})
     names = list(thread_programs())
     for a, b in itertools.product(names, names):
-        out.append({'kind': 'threads', 'programs': [a, b], 'bound': 3 if tier == 'quick' else None})
+        out.append({'kind': 'threads', 'programs': [a, b], 'bound': 3 if tier == 'quick' else 5})
     if tier == 'thorough':
         for a, b, c in itertools.product(names[:3], names[:3], names[:3]):
             out.append({'kind': 'threads', 'programs': [a, b, c], 'bound': 2})
